@@ -77,6 +77,10 @@ STATE_PAIRS = [
     ('api/a64_fstring_surrogate.py', 'api/a65_fstring_nonascii.py'),
     ('api/a64_fstring_surrogate.py', 'api/a34_unicode_names.py'),
     ('api/a64_fstring_surrogate.py', 'api/a12_fstring.py'),
+    # a call that FAILS inside the f-string printer, then nested f-strings with debug specifiers
+    ('api/a67_fstring_unrepresentable.py', 'api/a66_nested_fstrings.py'),
+    ('api/a67_fstring_unrepresentable.py', 'api/a66_nested_fstrings.py'),
+    ('api/a30_syntax_error.py', 'api/a66_nested_fstrings.py'),
 ]
 
 NAME_POOL = [
